@@ -459,7 +459,8 @@ sgsisx(superlu_options_t *options, SuperMatrix *A, int *perm_c, int *perm_r,
 	  options->Fact != FACTORED) ||
 	 (options->Trans != NOTRANS && options->Trans != TRANS && 
 	  options->Trans != CONJ) ||
-	 (options->Equil != NO && options->Equil != YES) )
+	 (options->Equil != NO && options->Equil != YES) ||
+	 (unsigned int) options->ColPerm > (unsigned int) MY_PERMC )
 	*info = -1;
     else if ( A->nrow != A->ncol || A->nrow < 0 ||
 	      (A->Stype != SLU_NC && A->Stype != SLU_NR) ||
